@@ -976,15 +976,20 @@ class LogixDriver(CIPDriver):
                 )
                 continue
 
-            request = ReadTagRequestPacket(
-                self._sequence,
-                tag_data["plc_tag"],
-                tag_data["elements"],
-                tag_data["tag_info"],
-                request_id,
-                self._cfg["use_instance_ids"],
-            )
-            request.build_message()
+            try:
+                request = ReadTagRequestPacket(
+                    self._sequence,
+                    tag_data["plc_tag"],
+                    tag_data["elements"],
+                    tag_data["tag_info"],
+                    request_id,
+                    self._cfg["use_instance_ids"],
+                )
+                request.build_message()
+            except Exception as err:  # e.g. an index or element count that cannot be encoded
+                tag_data["error"] = f"Invalid Tag Request - {err!r}"
+                self.__log.exception(f'Failed to build request for {tag_data["plc_tag"]} - skipping')
+                continue
             # TODO: this isn't very accurate right now, the message len is not part of the response
             # so we may be fragmenting more than needed
             return_size = (
@@ -1023,16 +1028,21 @@ class LogixDriver(CIPDriver):
         """
 
         if parsed_tag.get("error") is None:
-            request = ReadTagRequestPacket(
-                self._sequence,
-                parsed_tag["plc_tag"],
-                parsed_tag["elements"],
-                parsed_tag["tag_info"],
-                parsed_tag["request_id"],
-                self._cfg["use_instance_ids"],
-            )
+            try:
+                request = ReadTagRequestPacket(
+                    self._sequence,
+                    parsed_tag["plc_tag"],
+                    parsed_tag["elements"],
+                    parsed_tag["tag_info"],
+                    parsed_tag["request_id"],
+                    self._cfg["use_instance_ids"],
+                )
 
-            request.build_message()
+                request.build_message()
+            except Exception as err:  # e.g. an index or element count that cannot be encoded
+                parsed_tag["error"] = f"Invalid Tag Request - {err!r}"
+                self.__log.exception(f'Failed to build request for {parsed_tag["plc_tag"]} - skipping')
+                return None
             return_size = _tag_return_size(parsed_tag) + len(request.message)
             if return_size > self.connection_size:
                 request = ReadTagFragmentedRequestPacket.from_request(self._sequence, request)
